@@ -250,8 +250,9 @@ def o174(ctx):
     for c, red in (("min_angle", "reduce:min"), ("max_angle", "reduce:max")):
         t = f.cols.get(c)
         ctx.count(1)
-        if t is None or not (tm.has_call(t, red) and not tm.has_call(t, "reduce:max" if red.endswith("min") else "reduce:min")
-                             and uses(t, "ioutils.tlt_load")):
+        top_ok = t is not None and t.op == "call" and t.args[0] == red  # the extreme itself, nothing folded into it (initial=, clip, ...)
+        if t is None or not top_ok or not (tm.has_call(t, red) and not tm.has_call(t, "reduce:max" if red.endswith("min") else "reduce:min")
+                                           and uses(t, "ioutils.tlt_load")):
             ctx.finding(qe, last_store(it, f, c) or fe, f"{c} must be the {'minimum' if 'min' in c else 'maximum'} tilt angle of the tomogram",
                         last_store(it, f, c) or fe, me_, extracted=tm.show(t)[:120] if t is not None else None)
     ctx.count(1)
@@ -300,6 +301,24 @@ def o175(ctx):
             if got != want:
                 ctx.finding(q, test, f"with removed={removed} an image whose Removed flag is {flagged} must {'be' if want else 'not be'} written",
                             test, m)
+    # (a2) inside a written section every field is written whatever its value: the per-field test may depend on the column name only
+    col_loops = [n for n in ast.walk(fn) if isinstance(n, ast.For) and isinstance(n.target, ast.Name) and isinstance(n.iter, ast.Attribute)
+                 and n.iter.attr == "columns"]
+    if len(col_loops) != 1:
+        raise Unsupported("field loop (for column in <table>.columns) of Mdoc.write not found", fn)
+    cl = col_loops[0]
+    cv = cl.target.id
+    for t_ in [n.test for n in ast.walk(cl) if isinstance(n, ast.If)]:
+        ctx.count(1)
+        value_reads = [x for x in ast.walk(t_) if isinstance(x, ast.Subscript) and isinstance(x.slice, ast.Name) and x.slice.id == cv]
+        if value_reads:
+            ctx.finding(q, t_, "a field is written or skipped depending on its value: values that are falsy (0, 0.0, empty text) disappear from the "
+                        "written section, so the re-read table loses the column or gets NaN", t_, m)
+    ctx.count(1)
+    wrote = [n for n in ast.walk(cl) if isinstance(n, ast.Call) and isinstance(n.func, ast.Attribute) and n.func.attr == "write"
+             and any(isinstance(x, ast.Subscript) and isinstance(x.slice, ast.Name) and x.slice.id == cv for x in ast.walk(n))]
+    if not wrote:
+        ctx.finding(q, cl, "each field of a written section must be written with its value (row[column])", cl, m)
     # (b) writer/reader characters
     fmts = [n.func.value.value for n in ast.walk(fn) if isinstance(n, ast.Call) and isinstance(n.func, ast.Attribute) and n.func.attr == "format"
             and isinstance(n.func.value, ast.Constant) and isinstance(n.func.value.value, str)
